@@ -453,11 +453,16 @@ pub fn main(args: &[String]) {
                 Outcome::Ok(o) => {
                     // the second pass: the library on its own output, under the same configuration (C06)
                     let second = match format_guarded(&o, cfg, None) { Outcome::Ok(o2) => hex(o2.as_bytes()), Outcome::ParseError => "parseerror".to_string(), Outcome::OtherError(_) => "error".to_string(), Outcome::Panic(_) => "panic".to_string() };
-                    println!("L0 g{} {} {} {} {}/{}/{}/{} {} {} ok {} {}", k, win, spaces, width, style, callp, space, collapse, tree, hex(src.as_bytes()), hex(o.as_bytes()), second)
+                    // ... and, where the second pass changed something, a third one: it must change nothing (C06_L0_second_pass_is_a_fixed_point)
+                    let third = match format_guarded(&o, cfg, None) {
+                        Outcome::Ok(o2) if o2 != o => match format_guarded(&o2, cfg, None) { Outcome::Ok(o3) => hex(o3.as_bytes()), _ => "failed".to_string() },
+                        _ => "-".to_string(),
+                    };
+                    println!("L0 g{} {} {} {} {}/{}/{}/{} {} {} ok {} {} {}", k, win, spaces, width, style, callp, space, collapse, tree, hex(src.as_bytes()), hex(o.as_bytes()), second, third)
                 }
-                Outcome::ParseError => println!("L0 g{} {} {} {} {}/{}/{}/{} {} {} parseerror - -", k, win, spaces, width, style, callp, space, collapse, tree, hex(src.as_bytes())),
-                Outcome::OtherError(_) => println!("L0 g{} {} {} {} {}/{}/{}/{} {} {} error - -", k, win, spaces, width, style, callp, space, collapse, tree, hex(src.as_bytes())),
-                Outcome::Panic(_) => println!("L0 g{} {} {} {} {}/{}/{}/{} {} {} panic - -", k, win, spaces, width, style, callp, space, collapse, tree, hex(src.as_bytes())),
+                Outcome::ParseError => println!("L0 g{} {} {} {} {}/{}/{}/{} {} {} parseerror - - -", k, win, spaces, width, style, callp, space, collapse, tree, hex(src.as_bytes())),
+                Outcome::OtherError(_) => println!("L0 g{} {} {} {} {}/{}/{}/{} {} {} error - - -", k, win, spaces, width, style, callp, space, collapse, tree, hex(src.as_bytes())),
+                Outcome::Panic(_) => println!("L0 g{} {} {} {} {}/{}/{}/{} {} {} panic - - -", k, win, spaces, width, style, callp, space, collapse, tree, hex(src.as_bytes())),
             }
         }
     }
